@@ -123,6 +123,15 @@ CHECKS = {
          "on the three processor models in a harness with the real MagicMemoryCL; sink messages and final data memory must equal the interpreter's. 65536 checksum inputs through FL/CL/RTL.",
          "Trusted: vt/isa.py (interpreter + encoder, encoder cross-checked against the repo's assembler in selftest). Timing space is a fixed config list + stall deviation 1.",
          "DESIGN.md 6.C20", "E1 E4"),
+ "C10": ("exploration",
+         "bounded exhaustive enumeration of update blocks (expression trees x assignment forms + statement shapes) through the real RTLIR generation and per-block type check; probe-instrumented execution over all inputs; literal-width sweep",
+         "About 74k (1.6M thorough) blocks `t = e` / `s.out_w @= e` (w in 1,4,8,9) for every expression of depth 1 over 21 leaves (ports, sized constants, literals, int and Bits free variables, "
+         "struct field, list element, slice, variable bit index, explicit / implicit temporaries, loop variable) and depth 2 over representative leaves, plus loops with ascending / descending / "
+         "strided ranges and temporaries re-assigned under an if. Accepted blocks are executed with a probe around every typed sub-expression for 192 input combinations: static width == runtime "
+         "width and no width error outside the statement's carve-outs. Literal widths are checked for 0..2^14 (2^20) and 2^k-1, 2^k, 2^k+1 up to k = 70.",
+         "Trusted: the probe instrumentation and the attribution of a block to 'computes with implicit ints' / 'folded constant' (the two recorded systemic findings); blocks outside those classes "
+         "are checked strictly.",
+         "DESIGN.md 6.C10", "E1"),
 }
 
 NOT_YET = {}
